@@ -72,7 +72,8 @@ def run(ctx):
            fail=f"Security.sign does not hash its whole argument (`{show(hashed)[:100] if hashed is not None else show(st_)[:100]}`): bytes outside the hashed part can be altered without detection")
 
     n_ret = 0
-    for pc, ret, node, _st in s.returns:
+    from ._pipeline import decode_returns
+    for pc, ret, node, _st in decode_returns(prog, s):
         if node is None:
             # falling off the end returns None: no frame is produced
             continue
